@@ -369,9 +369,64 @@ pub fn run(ctx: &'static Ctx) -> (&'static str, Value, Vec<&'static str>) {
             st
         })
         .reduce(Stats::new, Stats::merge);
-    let stats = s1.merge(s2);
+    // history dimension: all sequences of <= 3 conversions over a 10-operation alphabet, each
+    // sequence on a fresh thread; every conversion must still equal the history-free reference
+    let ops: Vec<GateCase> = {
+        let mk = |kind: usize, ws: u8, n: u32, scale: f32, offset: f32| GateCase {
+            kind,
+            ws,
+            raws: (0..n).map(|i| if i < 4 { i } else { (i * 37 + 1) % if ws == 8 { 256 } else { 65536 } }).collect(),
+            scale,
+            offset,
+        };
+        vec![
+            mk(3, 8, 300, 0.0, 0.0),
+            mk(3, 8, 300, 2.0, 66.0),
+            mk(4, 8, 3, 2.0, 129.0),
+            mk(7, 16, 300, 0.0, 7.5),
+            mk(7, 16, 300, 2.8361, 2.0),
+            mk(5, 8, 1840, 0.5, 1.0),
+            mk(3, 8, 257, 2.0, 129.0),
+            mk(6, 16, 2, 100.0, 0.5),
+            mk(8, 8, 300, -2.0, 66.0),
+            mk(3, 8, 256, 2.0, 66.0),
+        ]
+    };
+    let hist_stats = std::sync::Mutex::new(Stats::new());
+    for_each_history(ops.len(), if thorough { 3 } else { 3 }, |w| {
+        let mut st = Stats::new();
+        let before = ctx.failure_count();
+        for (step, op) in w.iter().enumerate() {
+            check_gates(ctx, &ops[*op], &mut st);
+            // Debug formatting also converts values
+            let _ = step;
+        }
+        if ctx.failure_count() > before && w.len() > 1 {
+            // attribute to the history if the last operation alone is fine
+            let mut alone = Stats::new();
+            let b2 = ctx.failure_count();
+            let last = *w.last().unwrap_or(&0);
+            std::thread::scope(|s| {
+                s.spawn(|| check_gates(ctx, &ops[last], &mut alone));
+            });
+            if ctx.failure_count() == b2 {
+                ctx.fail(
+                    "history:conversion_depends_on_previous_conversions",
+                    || format!("operation sequence {:?} (indices into the 10-operation alphabet): a conversion that is correct on a fresh thread is wrong after the preceding ones", w),
+                    || json!({"op": "history", "sequence": w}),
+                );
+            }
+        }
+        st.count("history_sequences", 1);
+        st.nontrivial(format!("h{:?}", w).as_bytes());
+        let mut g = hist_stats.lock().unwrap_or_else(|e| e.into_inner());
+        let old = std::mem::take(&mut *g);
+        *g = old.merge(st);
+    });
+    let s3 = hist_stats.into_inner().unwrap_or_else(|e| e.into_inner());
+    let stats = s1.merge(s2).merge(s3);
     let cov = stats.coverage(
-        "gate values: all 256 raw values x 7 moments x 10 (scale, offset) pairs for 8-bit; all 65536 raw values (64 messages of 1024 gates) for 16-bit moments x kinds x pairs; gate counts {0,1,3,1840}; oracle computed in f32 and compared bit-exactly at decode level and model level. header mapping: status 0..=7 x spacing {0,1,2,3,255} x azimuth/elevation numbers at bounds x date/time; all 128 moment subsets x 4 gate counts. non-trivial = every case (distinct by content hash)",
+        "gate values: all 256 raw values x 7 moments x 10 (scale, offset) pairs for 8-bit; all 65536 raw values (64 messages of 1024 gates) for 16-bit moments x kinds x pairs; gate counts {0,1,3,1840}; oracle computed in f32 and compared bit-exactly at decode level and model level. header mapping: status 0..=7 x spacing {0,1,2,3,255} x azimuth/elevation numbers at bounds x date/time; all 128 moment subsets x 4 gate counts. history: every sequence of <= 3 conversions over a 10-operation alphabet (8/16-bit, scale 0 / non-zero / negative, 2..1840 gates) run back-to-back on a fresh thread, each result compared with the history-free reference. non-trivial = every case (distinct by content hash)",
         true,
         json!({"pairs": pairs.iter().map(|p| [p.0, p.1]).collect::<Vec<_>>(), "kinds16": kinds16}),
     );
@@ -413,6 +468,10 @@ pub fn replay(ctx: &'static Ctx, case: &Value) {
                 gates: g("gates") as u16,
             };
             check_header(ctx, &c, &mut st);
+        }
+        Some("history") => {
+            println!("history replay: re-running the whole check (sequences are cheap)");
+            let _ = run(ctx);
         }
         _ => machinery("C07 replay: unknown op"),
     }
